@@ -113,7 +113,7 @@ def section_a():
                 "r1 = 'h_ff_f; r2 = 8'sb1000_0000; r3 = 3'sd7; r4 = 'h1_0000_0000; i = 'd3; r5 = 12'hABC;",
                 {'r1': 0xfff, 'r2': 0xff80, 'r3': 0xffff, 'r4': 0x100000000, 'i': 3, 'r5': 0xBC})
     # selects
-    expect_vals('a.select', "reg [7:0] a; reg [0:7] b; reg [8:1] c; reg [3:0] r1, r2, r3, r4, r5; reg r6; integer k; reg s; reg r7;",
+    expect_vals('a.select', "reg [7:0] a; reg [0:7] b; reg [8:1] c; reg [3:0] r1, r2, r3, r4, r5; reg r6; integer k; reg [0:0] s; reg r7;",
                 "a = 8'hc5; b = 8'hc5; c = 8'hc5; r1 = a[7:4]; r2 = b[0:3]; r3 = c[4:1]; k = 4; r4 = a[k +: 4];"
                 "r5 = a[k -: 4]; r6 = b[0]; s = 1; r7 = s[0];",
                 {'r1': 0xc, 'r2': 0xc, 'r3': 0x5, 'r4': 0xc, 'r5': 0x2, 'r6': 1, 'r7': 1})
@@ -671,10 +671,13 @@ def section_e():
     expect_rule('wrong-kind-initial', M + 'wire w; initial w = 0;' + E, 'wrong-assignment-kind')
     expect_rule('wrong-kind-mem', M + 'reg [3:0] m [0:1]; assign m[0] = v;' + E, 'wrong-assignment-kind')
     expect_rule('assign-to-input', 'module t(input a, input b); assign a = b; endmodule', 'assign-to-input')
+    expect_rule('select-of-scalar-read', M + 'wire s; assign s = a; assign r = s[0];' + E, 'select-of-scalar')
+    expect_rule('select-of-scalar-port', M + 'assign r = a[0];' + E, 'select-of-scalar')
+    expect_rule('select-of-scalar-write', M + 'wire s; assign s[0] = a; assign r = s;' + E, 'select-of-scalar')
     expect_rule('select-out-of-range', M + 'assign o[7:4] = v;' + E, 'select-out-of-range')
     expect_rule('select-out-of-range-bit', M + 'assign o[4] = a;' + E, 'select-out-of-range')
     try:
-        s = Sim(elaborate(parse(M + 'wire s; assign s = a; assign r = s[0]; assign o = {v[5:3], a};' + E), 't'))
+        s = Sim(elaborate(parse(M + 'wire [0:0] s; assign s = a; assign r = s[0]; assign o = {v[5:3], a};' + E), 't'))
         s.set('a', 1)
         s.set('v', 0xf)
         s.settle()
